@@ -1,13 +1,161 @@
 package main
 
 import (
+	"flag"
 	"fmt"
-	"golang.org/x/tools/go/packages"
+	"os"
+	"path/filepath"
+	"sort"
+	"strings"
+	"time"
 )
 
+func scratchDir() string {
+	home, _ := os.UserHomeDir()
+	d := filepath.Join(home, ".cache", "gfverify-scratch", fmt.Sprintf("%d", os.Getpid()))
+	os.MkdirAll(d, 0o755)
+	return d
+}
+
 func main() {
-	cfg := &packages.Config{Mode: packages.NeedName | packages.NeedFiles | packages.NeedSyntax | packages.NeedTypes | packages.NeedTypesInfo | packages.NeedImports | packages.NeedDeps, Dir: "/repo", BuildFlags: []string{"-tags=verif"}}
-	pkgs, err := packages.Load(cfg, "./pkg/...", "./cmd/...")
-	fmt.Println(len(pkgs), err)
-	for _, p := range pkgs { fmt.Println(p.PkgPath, len(p.Errors)) }
+	if len(os.Args) < 2 {
+		fmt.Fprintln(os.Stderr, "usage: gfverify check|verify|dump|lock|selftest|replay …")
+		os.Exit(2)
+	}
+	switch os.Args[1] {
+	case "verify":
+		cmdVerify(os.Args[2:])
+	case "dump":
+		cmdDump(os.Args[2:])
+	case "check":
+		cmdCheck(os.Args[2:])
+	case "lock":
+		cmdLock(os.Args[2:])
+	case "replay":
+		cmdReplay(os.Args[2:])
+	case "selftest":
+		cmdSelftest(os.Args[2:])
+	default:
+		fmt.Fprintln(os.Stderr, "unknown command", os.Args[1])
+		os.Exit(2)
+	}
+}
+
+func envOr(k, d string) string {
+	if v := os.Getenv(k); v != "" {
+		return v
+	}
+	return d
+}
+
+// cmdVerify: developer command – verify the named functions and print every obligation.
+func cmdVerify(args []string) {
+	fs := flag.NewFlagSet("verify", flag.ExitOnError)
+	repo := fs.String("repo", envOr("GFV_REPO", "/repo"), "repository")
+	vdir := fs.String("verif", envOr("GFV_VERIF", "/verif"), "verif dir")
+	timeout := fs.Int("timeout", 10, "per-obligation timeout (s)")
+	verbose := fs.Bool("v", false, "print models")
+	fs.Parse(args)
+	g, err := loadAll(*repo, *vdir)
+	if err != nil {
+		fmt.Fprintln(os.Stderr, "load:", err)
+		os.Exit(2)
+	}
+	scratch := scratchDir()
+	defer os.RemoveAll(scratch)
+	keys := fs.Args()
+	if len(keys) == 1 && keys[0] == "all" {
+		keys = nil
+		for k := range g.cs.Funcs {
+			keys = append(keys, k)
+		}
+		sort.Strings(keys)
+	}
+	bad := 0
+	for _, k := range keys {
+		start := time.Now()
+		res := g.verifyFunc(k)
+		if res.Trusted {
+			fmt.Printf("== %s: trusted contract (not verified)\n", k)
+			continue
+		}
+		dischargeAll(res.Obligations, scratch, time.Duration(*timeout)*time.Second)
+		fmt.Printf("== %s: %d obligations, %.1fs", k, len(res.Obligations), time.Since(start).Seconds())
+		if res.OutsideSubset != "" {
+			fmt.Printf("  OUTSIDE SUBSET: %s", res.OutsideSubset)
+		}
+		fmt.Println()
+		for _, o := range res.Obligations {
+			mark := "ok  "
+			if !o.ok() {
+				mark = "FAIL"
+				bad++
+			}
+			fmt.Printf("  %s %-60s %-10s %-10s %5dms  %s\n", mark, strings.TrimPrefix(o.Name, k+"/"), o.Status, o.Backend, o.Ms, o.Where)
+			if !o.ok() && *verbose {
+				fmt.Println("      goal:", o.Human)
+				if o.Model != "" {
+					fmt.Println(indent(summariseModel(o.Model), "      "))
+				}
+			}
+		}
+	}
+	if bad > 0 {
+		os.Exit(1)
+	}
+}
+
+func (o *Obligation) ok() bool {
+	return o.Status == "unsat" || o.Status == "ok-sat" || o.Status == "ok-unknown"
+}
+
+func indent(s, p string) string {
+	return p + strings.ReplaceAll(s, "\n", "\n"+p)
+}
+
+func cmdDump(args []string) {
+	fs := flag.NewFlagSet("dump", flag.ExitOnError)
+	repo := fs.String("repo", envOr("GFV_REPO", "/repo"), "repository")
+	vdir := fs.String("verif", envOr("GFV_VERIF", "/verif"), "verif dir")
+	fs.Parse(args)
+	g, err := loadAll(*repo, *vdir)
+	if err != nil {
+		fmt.Fprintln(os.Stderr, "load:", err)
+		os.Exit(2)
+	}
+	res := g.verifyFunc(fs.Arg(0))
+	if res.OutsideSubset != "" {
+		fmt.Fprintln(os.Stderr, "outside subset:", res.OutsideSubset)
+	}
+	for _, o := range res.Obligations {
+		if fs.NArg() < 2 || strings.HasSuffix(o.Name, fs.Arg(1)) {
+			fmt.Printf("; ---- %s  (%s) %s\n", o.Name, o.Where, o.Human)
+			if fs.NArg() >= 2 {
+				fmt.Println(o.buildQuery(true))
+			}
+		}
+	}
+}
+
+// summariseModel keeps the interesting lines of a solver model (parameters).
+func summariseModel(m string) string {
+	var out []string
+	lines := strings.Split(m, "\n")
+	for i := 0; i < len(lines); i++ {
+		ln := lines[i]
+		if strings.Contains(ln, "define-fun p_") || strings.Contains(ln, "define-fun H0_") {
+			blk := ln
+			depth := strings.Count(ln, "(") - strings.Count(ln, ")")
+			for depth > 0 && i+1 < len(lines) {
+				i++
+				blk += " " + strings.TrimSpace(lines[i])
+				depth += strings.Count(lines[i], "(") - strings.Count(lines[i], ")")
+			}
+			if len(blk) > 400 {
+				blk = blk[:400] + " …"
+			}
+			out = append(out, blk)
+		}
+	}
+	return strings.Join(out, "\n")
 }
